@@ -287,6 +287,9 @@ fn snapshot<K: HKey>(cas: &Cas<K>, u: &Universe<K>, root: &Path, names: &alpha::
         "nv": verif::next_op_version(cas.as_arc()).map_or(0, |v| v as i64),
         "casw": crate::shim::cas_writes(),
         "cas": ok, "casbad": bad, "casunk": unk, "junk": junk.len(), "stg": alpha::staging_count(root),
+        // the directory as an independent reader of the documented formats sees it at this instant (every worker is
+        // parked): what a process kill right now would leave behind
+        "disk": alpha::alpha(root, names, NK),
     })
 }
 
